@@ -83,6 +83,7 @@ func parseString(filename string, input antlr.CharStream) (tree parser.ISysl_fil
 	p.AddErrorListener(&errorListener)
 
 	p.BuildParseTrees = true
+	verifYield("parse", filename, 0)
 	tree = p.Sysl_file()
 	if errorListener.hasErrors {
 		return nil, syslutil.Exitf(ParseError, fmt.Sprintf("%s has syntax errors\n", filename))
